@@ -4,6 +4,7 @@ import (
 	"crypto/sha256"
 	"encoding/json"
 	"fmt"
+	"golang.org/x/net/bpf"
 	"os"
 	"sync"
 	"sync/atomic"
@@ -70,6 +71,11 @@ type compileReplay struct {
 	Got    string         `json:"got,omitempty"`
 	Want   string         `json:"want,omitempty"`
 	Class  string         `json:"class"`
+	// how the policy value was compiled: on a value that was assembled before in an earlier shape (variant modulo 3, see
+	// engine.Options) or in the explicitly given one
+	Staged        bool            `json:"staged,omitempty"`
+	StagedVariant int             `json:"staged_variant,omitempty"`
+	Prior         *engine.PolJSON `json:"prior,omitempty"`
 }
 
 func progHash(p []cbpf.Insn) [16]byte {
@@ -153,7 +159,11 @@ func (r *compileRun) one(scope string, a *refsem.Arch, p *seccomp.Policy, o engi
 		}
 		hh := sha256.Sum256(append(b, evs...))
 		key := fmt.Sprintf("%s:%s:%s:%x", r.ctx.ID, is.Class, scope, hh[:6])
-		rep := compileReplay{Scope: scope, Policy: pj, Event: is.Event, Class: is.Class}
+		rep := compileReplay{Scope: scope, Policy: pj, Event: is.Event, Class: is.Class, Staged: o.Staged, StagedVariant: o.StagedVariant % 3}
+		if o.Prior != nil {
+			pr := engine.ToJSON(a, o.Prior, o.Big)
+			rep.Prior = &pr
+		}
 		if is.Event != nil {
 			rep.Got, rep.Want = fmt.Sprintf("%#x", is.Got), fmt.Sprintf("%#x", is.Want)
 		}
@@ -202,7 +212,22 @@ func replayCompile(path string) int {
 	fmt.Printf("replay %s (%s)\npolicy: %s\n", f.Key, f.What, mustJSON(f.Case.Policy))
 	verdict, why := refsem.Valid(a, p)
 	fmt.Printf("reference verdict: %v %s\n", verdict, why)
-	insts, err, pan := engine.Compile(a, p, f.Case.Policy.Big)
+	var insts []bpf.Instruction
+	var pan any
+	switch {
+	case f.Case.Prior != nil:
+		_, prior := engine.FromJSON(*f.Case.Prior)
+		fmt.Println("(compiled on a value that was assembled in the recorded earlier shape first)")
+		insts, err, pan = engine.CompileAfter(a, prior, p, f.Case.Policy.Big)
+	case f.Case.Staged && f.Case.StagedVariant%3 == 2:
+		fmt.Println("(compiled on a value that was assembled for another architecture first)")
+		insts, err, pan = engine.CompileAfterOn(a, engine.OtherArch(a), p, p, f.Case.Policy.Big)
+	case f.Case.Staged:
+		fmt.Printf("(compiled on a value that was assembled in an earlier shape first, variant %d)\n", f.Case.StagedVariant%3)
+		insts, err, pan = engine.CompileAfter(a, engine.EarlierShape(p, f.Case.StagedVariant%3), p, f.Case.Policy.Big)
+	default:
+		insts, err, pan = engine.Compile(a, p, f.Case.Policy.Big)
+	}
 	if pan != nil {
 		fmt.Printf("Assemble PANIC: %v\n", pan)
 		return 1
